@@ -285,6 +285,45 @@ def gen_case(rng, maxops, boundary=False, nobt=False):
     return Case(g.ops, g.tags)
 
 
+def big_case(rng, lvl, cfg, n=1100):
+    """more live allocations than the tracer's table has slots at first (1024): the table grows (rehash), probe
+    sequences get long, removals shift entries back"""
+    ops = [f"new {lvl} {rng.choice([0, 1, 8])} {cfg}"]
+    live = {}
+    for i in range(n):
+        sz = rng.randint(1, 48)
+        ops.append(f"acq p{i} {sz}" if rng.random() < 0.8 else f"calloc p{i} 1 {sz}")
+        live[i] = sz
+        if i in (900, 1000, n - 1):
+            ops.append("dump")
+        # around the table's growth threshold (0.95 x 1024, x 2048) and its exact capacity every population size sees a removal
+        band = any(0.93 * c <= len(live) <= 1.02 * c for c in (1024, 2048))
+        if live and (band or rng.random() < 0.1):
+            k = rng.choice(list(live))
+            if band or rng.random() < 0.5:
+                ops.append(f"rel p{k}")
+                del live[k]
+            else:
+                live[k] = rng.randint(1, 64)
+                ops.append(f"realloc p{k} {live[k]} {rng.choice(['keep', 'move'])}")
+    ks = list(live)
+    rng.shuffle(ks)
+    for k in ks[:len(ks) // 2]:
+        ops.append(f"rel p{k}")
+        del live[k]
+    ops.append("dump")
+    for i in range(n, n + 200):
+        ops.append(f"acq p{i} {rng.randint(1, 48)}")
+        live[i] = 1
+    ops.append("count")
+    ks = list(live)
+    rng.shuffle(ks)
+    for k in ks:
+        ops.append(f"rel p{k}")
+    ops += ["dump", "destroy"]
+    return Case(ops, {"levels": [lvl], "cfgs": [cfg], "big": True, "inject": 0, "realloc": 1})
+
+
 def nobt_cases(rng, tier):
     """cases for the platform variant where aws_backtrace() is unavailable: the level matrix and random histories"""
     cases = []
@@ -353,6 +392,9 @@ def gen_cases(rng, tier):
         cases += injection_sweep(lvl)
     cases += injection_sweep("bytes", "minimal") + injection_sweep("stacks", "norealloc")
     cases += exhaustive_cases("bytes") + exhaustive_cases("bytes", "minimal")
+    cases += [big_case(rng, "bytes", "full"), big_case(rng, "stacks", rng.choice(["full", "minimal"]))]
+    if tier == "thorough":
+        cases += [big_case(rng, rng.choice(["bytes", "stacks"]), rng.choice(list(CFGS)), rng.choice([1100, 2100])) for _ in range(10)]
     if tier == "thorough":
         for cfg in CFGS:
             cases += exhaustive_cases("stacks", cfg) + exhaustive_cases("none", cfg)
@@ -506,6 +548,8 @@ def oracle(case, lines):
             # without backtrace the tracer runs at min(requested, bytes); a tracer requested off stays off
             ref = _Ref("bytes" if nobt and t[1] == "stacks" else t[1], t[3] if len(t) >= 4 else "full")
             pending = None
+            while peek() is not None and peek().startswith("P MONITOR"):
+                errs.append("harness monitor: " + nxt())
             check_stat(nxt(), op)
             continue
         if t[0] == "depth":
@@ -700,11 +744,15 @@ def _threads_run(ctx, exe, args):
 def extra_stages(ctx):
     exe = cbuild.build_harness(**HARNESS)
     rng = ctx.rng
+    for cfg in ("default", "aligned"):      # always: the two library allocators as the wrapped allocator
+        if _threads_run(ctx, exe, (rng.randint(1, 10 ** 6), 3, 4, 300 if ctx.tier == "quick" else 1500, rng.choice(["bytes", "stacks"]), 8, cfg)):
+            return
     reps = 3 if ctx.tier == "quick" else 40
     for _ in range(reps):
         for lvl, frames in (("bytes", 0), ("stacks", rng.choice([1, 8, 200])), ("none", 8)):
             nt = rng.choice([2, 3, 4])
-            cfg = rng.choice(["full", "norealloc", "minimal", "nocalloc"])
+            # the wrapped allocator: the harness's own (4 vtable shapes) or the library's default / aligned allocator
+            cfg = rng.choice(["full", "norealloc", "minimal", "nocalloc", "default", "aligned"])
             args = (rng.randint(1, 10 ** 6), nt, 5, 250 if ctx.tier == "quick" else 1500, lvl, frames, cfg)
             if _threads_run(ctx, exe, args):
                 return
